@@ -466,6 +466,12 @@ example : getItem 40 (.dict .n0 [(['a'], .dict .n0 [(['l'], .list .n0 [.int 1]),
         · exact np 'x')
     rfl (by decide) (by decide)
 
+/-- outside the honoured grammar the unrestricted `C03_read_back_stmt` fails (at fuel 40): after the
+silent misplacement of C03-b (`C03_misplaced_cex`) the value does not read back -/
+example : (getItem 40 (.dict .n0 [(['a'], .dict .n0 []), (['c'], .list .n0 [.none, .list .n0 [.str ['V']]])])
+      (replace sNew sLast ['c', '[', 'n', 'e', 'w', '(', ')', ']', '[', '0', ']', '/', 'm'])).2 ≠ .ok (.str ['V']) := by
+  decide
+
 /-- lists inside lists: `x` is an `n0list` holding an `n0list`, `p` a plain list holding a plain list -/
 def exTree3 : Val :=
   .dict .n0 [(['x'], .list .n0 [.list .n0 [.int 1]]), (['p'], .list .plain [.list .plain []])]
